@@ -17,6 +17,16 @@ class Named(list):
         self.name = name
 
 
+def named_array(E, items, name):
+    """A float array carrying a .name attribute (what a pandas-like column looks like to extract_axis_name)."""
+    np = E.np
+    a = np.asarray(items, dtype=float)
+    if not E.sym:
+        a = a.view(type("NamedArray", (np.ndarray,), {}))
+    a.name = name
+    return a
+
+
 FORMS_1D = ["list", "tuple", "generator", "iterator", "nested_list", "array2d", "range_like", "named_list"]
 FORMS_ND = ["list_of_rows", "tuple_of_rows", "list_of_tuples", "h2_lists", "h2_tuple_array", "h3_lists", "h3_arrays", "fill_n_columns"]
 
@@ -36,6 +46,10 @@ class C17Generic1D(Harness):
         for bad in ("scalar", "string", "ragged", "weights_short", "weights_2d_for_1d", "none_with_bins", "dict"):
             yield f"c1d-bad-{bad}", dict(form="list", weights="none", bad=bad)
         yield "c1d-nan-dropna-off", dict(form="list", weights="none", bad="nan_no_dropna")
+        # infinite entries are not NaN: they are kept (as overflow / underflow) together with their weights
+        for form in ("list", "array2d", "iterator"):
+            for inf in ("+inf", "-inf"):
+                yield f"c1d-{form}-wlist-{inf}", dict(form=form, weights="list", bad=None, inf=inf)
 
     def declare(self, cx, p):
         x = {"v": cx.reals("v", 2, nan=(p["form"] != "range_like")), "w": cx.ints("w", 2, 0, 5), "e": declare_edges(cx, "e", 2)}
@@ -80,6 +94,8 @@ class C17Generic1D(Harness):
             r = E.attempt(h1, args[0], edges, **kw)
             return {"res": {"raised": r} if isinstance(r, Raised) else full(E, r)}
         vals = list(x["v"]) if p["form"] != "range_like" else [0.0, 1.0]
+        if p.get("inf"):
+            vals[1] = float("inf") if p["inf"] == "+inf" else float("-inf")
         nested = p["form"] in ("nested_list", "array2d")
         kw, kw_ref = {}, {}
         if p["weights"] != "none":
@@ -119,6 +135,21 @@ class C17Generic1D(Harness):
             # unnamed columns give axis names (None, None); the array gives the defaults - names are checked separately
             g["axis_names"] = r["axis_names"]
         yield "same_as_array", same_snapshot(cx, g, r)
+        # absolute accounting (the array reference runs through the same extraction code): every non-NaN entry is counted somewhere
+        if p["form"] != "range_like" and p["weights"] != "none":
+            w = [cx.t(i) for i in x["w"]]
+            keep = [z3.Not(cx.isnan(v)) for v in x["v"]]
+            if p.get("inf"):
+                keep[1] = z3.BoolVal(True)
+            expected = sum([z3.If(k, wi, 0) for k, wi in zip(keep, w)], z3.IntVal(0))
+            m = g["missed"]
+            yield "every_non_nan_entry_accounted", cx.t(zsum_list(cx, g["freq"])) + cx.t(m[0]) + cx.t(m[1]) == expected if all(cx.finite(t) for t in m[:2]) else False
+            if p.get("inf"):
+                yield "infinite_entry_is_overflow_or_underflow", cx.eq(m[1] if p["inf"] == "+inf" else m[0], z3.If(z3.And(keep[0], (cx.t(x["v"][0]) > cx.t(x["e"][-1])) if p["inf"] == "+inf" else (cx.t(x["v"][0]) < cx.t(x["e"][0]))), w[0], 0) + w[1])
+
+
+def zsum_list(cx, a):
+    return sum([cx.t(v) for v in a], z3.IntVal(0))
 
 
 @register
@@ -134,10 +165,12 @@ class C17GenericND(Harness):
         for bad in ("one_dim", "unequal_columns", "weights_len", "ragged_rows", "axis_names_len"):
             yield f"cnd-bad-{bad}", dict(form="list_of_rows", weights="none", bad=bad)
         yield "cnd-named-columns", dict(form="h2_named", weights="none", bad=None)
+        for form in ("h3_named", "h3_lists_explicit_names", "h2_named_explicit_names", "h2_lists_explicit_names", "rows_explicit_names"):
+            yield f"cnd-{form}", dict(form=form, weights="none", bad=None)
 
     def declare(self, cx, p):
         d = 3 if p["form"].startswith("h3") else 2
-        return {"x": [[cx.real(f"x{i}_{k}", nan=True) for k in range(d)] for i in range(2)], "w": cx.ints("w", 2, 0, 5),
+        return {"x": [[cx.real(f"x{i}_{k}", nan=not p["form"].endswith("names") and p["form"] != "h3_named") for k in range(d)] for i in range(2)], "w": cx.ints("w", 2, 0, 5),
                 "e": [declare_edges(cx, f"e{k}_", 2 if k == 0 else 1) for k in range(d)]}
 
     def drive(self, E, p, x):
@@ -179,6 +212,16 @@ class C17GenericND(Harness):
             got = E.attempt(fac.h2, tuple(cols[0]), np.asarray(cols[1], dtype=float), bins, **kw)
         elif f == "h2_named":
             got = E.attempt(fac.h2, Named(cols[0], "first"), Named(cols[1], "second"), bins, **kw)
+        elif f == "h3_named":
+            got = E.attempt(fac.h3, [named_array(E, c, n) for c, n in zip(cols, ("first", "second", "third"))], bins, **kw)
+        elif f == "h3_lists_explicit_names":
+            got = E.attempt(fac.h3, [np.asarray(c, dtype=float) for c in cols], bins, axis_names=["p", "q", "r"], **kw)
+        elif f == "h2_named_explicit_names":
+            got = E.attempt(fac.h2, Named(cols[0], "first"), Named(cols[1], "second"), bins, axis_names=["p", "q"], **kw)
+        elif f == "h2_lists_explicit_names":
+            got = E.attempt(fac.h2, cols[0], cols[1], bins, axis_names=["p", "q"], **kw)
+        elif f == "rows_explicit_names":
+            got = E.attempt(fac.h, [list(r) for r in rows], bins, axis_names=["p", "q"], **kw)
         elif f == "h3_lists":
             got = E.attempt(fac.h3, [np.asarray(c, dtype=float) for c in cols], bins, **kw)
         elif f == "h3_arrays":
@@ -209,6 +252,12 @@ class C17GenericND(Harness):
         g, r = dict(obs["got"]), dict(obs["ref"])
         if p["form"] == "h2_named":
             yield "axis_names_from_columns", g["axis_names"] == ["first", "second"]
+            g["axis_names"] = r["axis_names"]
+        if p["form"] == "h3_named":
+            yield "axis_names_from_columns", g["axis_names"] == ["first", "second", "third"]
+            g["axis_names"] = r["axis_names"]
+        if p["form"].endswith("explicit_names"):
+            yield "explicit_axis_names_win", g["axis_names"] == (["p", "q", "r"] if p["form"].startswith("h3") else ["p", "q"])
             g["axis_names"] = r["axis_names"]
         g["meta_keys"], r["meta_keys"] = [], []
         if p["form"].startswith(("h2", "h3")):
